@@ -162,6 +162,16 @@ CLAIMED = {
         "permutations are inputs (nothing distributional is proved); rank-deficient KernelShap designs skipped and counted; default image segmentations not exercised; "
         "F=2 inexactness is known finding C07-kshap-F2.",
    design="5 (C07)", technique="Gallina model over Qc, induction over batches, index arithmetic, Permutation/StronglySorted counting, least-squares sum-of-squares argument; vm_compute correspondence with recording estimator / model / TF random functions"),
+ "C10": dict(
+   text="26 machine-checked theorems on an executable F-net model with the custom-gradient override of commons/model_override.py and reverse mode: the clone's forward "
+        "equals the user's forward for every max_value / threshold / policy (slope 0), DeconvNet and GuidedBackprop equal the published recursions for every net and batch "
+        "size, the override touches exactly the ReLUs and keeps weights / structure; Grad-CAM and Grad-CAM++ arithmetic, layer choice (default = last layer with filters; by "
+        "name / index) and batching, with TF autodiff and the bicubic resize as parameters. Tied to /repo by exact correspondence on dense and conv nets (conv as probed dense "
+        "matrices) with four comparisons per case plus byte-level purity checks, and Grad-CAM(++) through the probed bicubic matrix.",
+   note="Trusted: Coq kernel + vm_compute; hand-written model; TF autodiff; Keras ReLU kink semantics; bicubic resize as an abstract function (probed matrix); float32 exactness "
+        "of the generated nets; forward-unchanged is REFUTED for negative_slope != 0 (known finding C10-negative-slope); user-model purity is decided by correspondence only; "
+        "a TF CPU conv2d family that is not row-wise is avoided by the generator (skipped and counted).",
+   design="5 (C10)", technique="Gallina F-net with custom-gradient override + reverse mode, induction over layers/batches; exact Qc correspondence (conv as probed dense matrices), Grad-CAM via probed bicubic matrix with tolerance"),
 }
 PENDING_REASON = "check not built yet in this session (work in progress; planned in DESIGN.md section 5)"
 
